@@ -117,6 +117,9 @@ structure Live (st : MK) (H : Heads) (win : Nat → Int) (w0 : Nat) : Prop where
 def MinOk (st : MK) (H : Heads) (w0 : Nat) : Prop :=
   ∀ c, st.bufs[w0]? = some c → c.win ≠ [] → ∀ x, x ≠ w0 → H.alive x = true → c.head.key ≤ H.key x
 
+/-- the winner has rows buffered (true after every replay) -/
+def Buffered (st : MK) (w0 : Nat) : Prop := ∃ c, st.bufs[w0]? = some c ∧ c.win ≠ []
+
 def KInv (st : MK) : Prop :=
   (st.count = 0 → ∀ b ∈ st.bufs, b.rem = []) ∧
   (st.count ≠ 0 → ∃ H win w0, Live st H win w0 ∧ MinOk st H w0)
@@ -177,11 +180,14 @@ theorem fresh_of_tinv {st2 : MK} {H' : Heads} {w' : Nat → Int}
     (hdead : ∀ x, x < st2.bufs.length → H'.alive x = false → ∃ c, st2.bufs[x]? = some c ∧ c.rem = [])
     (hcount : st2.count = (List.range st2.bufs.length).countP H'.alive)
     (hsome : ∃ x, x < st2.bufs.length ∧ H'.alive x = true) :
-    ∃ w1, Live st2 H' w' w1 ∧ MinOk st2 H' w1 := by
+    ∃ w1, Live st2 H' w' w1 ∧ MinOk st2 H' w1 ∧ Buffered st2 w1 := by
   obtain ⟨x0, hx0, ha0⟩ := hsome
   obtain ⟨w1, hw1, hal1, hlt1⟩ := htinv.winner_alive x0 hx0 ha0
   refine ⟨w1, ⟨htinv, hw1, by rw [← hwin, hw1], by rw [hleaf, ← hwin, hw1], hbound,
-    fun x _ ha => hfull x ha, hdead, hcount⟩, ?_⟩
+    fun x _ ha => hfull x ha, hdead, hcount⟩, ?_, ?_⟩
+  case refine_2 =>
+    obtain ⟨c1, hc1, hw1', _⟩ := hfull w1 hal1
+    exact ⟨c1, hc1, hw1'⟩
   intro c hc _ x hx ha
   have hmin := htinv.tree_min x (hbound x ha) ha
   rw [hw1, pk_nat hal1, leInf_some] at hmin
@@ -191,7 +197,7 @@ theorem fresh_of_tinv {st2 : MK} {H' : Heads} {w' : Nat → Int}
 
 /-- replay after the head of the winner changed to the head of its non-empty buffer `c'` -/
 theorem Live.replay_fresh (hl : Live st H win w0) (c' : Buf) (hc : st.bufs[w0]? = some c') (hc' : c'.win ≠ []) :
-    ∃ H' win' w1, Live st.replayGames H' win' w1 ∧ MinOk st.replayGames H' w1 := by
+    ∃ H' win' w1, Live st.replayGames H' win' w1 ∧ MinOk st.replayGames H' w1 ∧ Buffered st.replayGames w1 := by
   let H' : Heads := { alive := H.alive, key := fun x => if x = w0 then c'.head.key else H.key x }
   have hfull : ∀ x, H'.alive x = true → ∃ c, st.bufs[x]? = some c ∧ c.win ≠ [] ∧ c.head.key = H'.key x := by
     intro x ha
@@ -221,7 +227,8 @@ theorem Live.replay_fresh (hl : Live st H win w0) (c' : Buf) (hc : st.bufs[w0]? 
 theorem Live.replay_eof (hl : Live st H win w0) (hrem : st.cur.rem = []) :
     let st1 : MK := { st with winner := -1, count := st.count - 1 }
     (st.count - 1 = 0 → ∀ b ∈ st.bufs, b.rem = []) ∧
-    (st.count - 1 ≠ 0 → ∃ H' win' w1, Live st1.replayGames H' win' w1 ∧ MinOk st1.replayGames H' w1) := by
+    (st.count - 1 ≠ 0 → ∃ H' win' w1, Live st1.replayGames H' win' w1 ∧ MinOk st1.replayGames H' w1 ∧
+      Buffered st1.replayGames w1) := by
   intro st1
   let H' : Heads := { alive := fun x => if x = w0 then false else H.alive x, key := H.key }
   have hcnt : (List.range st.bufs.length).countP H'.alive + 1 = st.count := by
@@ -369,7 +376,7 @@ theorem MK.loop_emits : ∀ (f m : Nat) (st : MK), KInv st → (∀ l ∈ st.rem
         have hrem : (st.setBuf c').rems = st.rems := rems_setBuf_same hl c' (Buf.read_rem hr)
         obtain ⟨H', win', w1, hl', hm'⟩ := (hl.setBuf c').replay_fresh c' (setBuf_get_eq hl c') (Buf.read_win hr)
         have hk' : KInv ((st.setBuf c').replayKeep st.winner) :=
-          KInv.replayKeep _ (kinv_of_live hl' hm' hcond.2)
+          KInv.replayKeep _ (kinv_of_live hl' hm'.1 hcond.2)
         have ih := MK.loop_emits f m _ hk' (by
           intro l hl_; apply hs; rw [← hrem]
           simpa only [MK.rems, replayKeep_bufs] using hl_)
@@ -384,7 +391,7 @@ theorem MK.loop_emits : ∀ (f m : Nat) (st : MK), KInv st → (∀ l ∈ st.rem
           apply KInv.replayKeep
           refine ⟨fun hc => h0 hc, fun hc => ?_⟩
           obtain ⟨H', win', w1, hl', hm'⟩ := h1 hc
-          exact ⟨H', win', w1, hl', hm'⟩
+          exact ⟨H', win', w1, hl', hm'.1⟩
         have ih := MK.loop_emits f m _ hk' (by
           simp only [MK.rems, replayKeep_bufs]; exact hs)
         simp only [MK.rems, replayKeep_bufs] at ih
@@ -449,12 +456,12 @@ theorem MK.loop_emits : ∀ (f m : Nat) (st : MK), KInv st → (∀ l ∈ st.rem
             obtain ⟨H', win', w1, hl', hm'⟩ := (hl2.streak 0).replay_fresh _ (setBuf_get_eq hl1 _) hw2
             have hs2 := (emits_sorted hE1 hs1).2.2
             have ih := MK.loop_emits f (m - 1 - ((st.cur.advance 1).1.win.take n).length) _
-              (kinv_of_live hl' hm' hcond.2) hs2
+              (kinv_of_live hl' hm'.1 hcond.2) hs2
             exact ⟨Emits.trans hE0 (Emits.trans hE1 ih.1), ih.2⟩
         · -- replay the games
           obtain ⟨H', win', w1, hl', hm'⟩ := hl1.replay_fresh _ (setBuf_get_eq hl _) hw1
           have hk' : KInv ((st.setBuf (st.cur.advance 1).1).replayCount st.winner) :=
-            KInv.replayCount _ (kinv_of_live hl' hm' hcond.2)
+            KInv.replayCount _ (kinv_of_live hl' hm'.1 hcond.2)
           have ih := MK.loop_emits f (m - 1) _ hk' (by
             simp only [MK.rems, replayCount_bufs]; exact hs1)
           simp only [MK.rems, replayCount_bufs] at ih
@@ -553,7 +560,7 @@ theorem initialize_kinv (st : MK) (hw : ∀ b ∈ st.bufs, b.win = []) : KInv st
       (by simpa [hlen] using htinv) hroot (by simp [hlen])
       (by intro x ha; rw [hlen]; exact aliveAt_lt ha) hfull hdead (by simp [hlen, H])
       (by simpa [hlen] using hsome)
-    exact kinv_of_live h1 h2 (by show (List.range st.bufs.length).countP (aliveAt st.bufs) ≠ 0; omega)
+    exact kinv_of_live h1 h2.1 (by show (List.range st.bufs.length).countP (aliveAt st.bufs) ≠ 0; omega)
   · rename_i hpos
     have hz : (List.range st.bufs.length).countP (aliveAt st.bufs) = 0 := by omega
     refine ⟨fun _ => ?_, fun h => absurd rfl h⟩
